@@ -1950,19 +1950,45 @@ class VM:
         return methods.get(method, lambda *args: UNDEFINED)
 
     def _number_to_base(self, n: float, radix: int) -> str:
-        """Convert number to string in given base."""
-        if n != int(n):
-            # For non-integers, just use base 10
-            return str(n)
-        n = int(n)
-        if n == 0:
-            return "0"
+        """Convert a non-negative finite number to a string in the given base."""
         digits = "0123456789abcdefghijklmnopqrstuvwxyz"
+        whole = int(n)  # exact: a double is an integer times a power of two
+        fraction = n - whole
+        fraction_digits: List[str] = []
+        if fraction:
+            # Emit digits until the text identifies this double: delta is half the
+            # distance to the next one (the algorithm other engines use)
+            delta = max(0.5 * (math.nextafter(n, math.inf) - n), 5e-324)
+            # A double has at most 1074 fraction bits: delta passes 1 before that
+            for _ in range(1100):
+                if fraction < delta:
+                    break
+                fraction *= radix
+                delta *= radix
+                digit = int(fraction)
+                fraction_digits.append(digits[digit])
+                fraction -= digit
+                if (
+                    fraction > 0.5 or (fraction == 0.5 and digit & 1)
+                ) and fraction + delta > 1:
+                    # Round up, carrying into the digits already written
+                    carry = True
+                    while fraction_digits and carry:
+                        digit = digits.index(fraction_digits.pop())
+                        if digit + 1 < radix:
+                            fraction_digits.append(digits[digit + 1])
+                            carry = False
+                    if carry:
+                        whole += 1
+                    break
         result = []
-        while n:
-            result.append(digits[n % radix])
-            n //= radix
-        return "".join(reversed(result))
+        while whole:
+            result.append(digits[whole % radix])
+            whole //= radix
+        text = "".join(reversed(result)) or "0"
+        if fraction_digits:
+            text += "." + "".join(fraction_digits)
+        return text
 
     def _make_string_method(self, s: str, method: str) -> Any:
         """Create a bound string method."""
